@@ -1,0 +1,116 @@
+//go:build verif
+// +build verif
+
+package xpath
+
+import (
+	"bytes"
+	"fmt"
+	"strconv"
+)
+
+// This file is compiled only with the "verif" build tag. It adds read-only
+// observation points for the external verification harness and changes no
+// behaviour of the package.
+
+// VerifParse parses expr like Compile does (same scanner, same parser, same
+// panic-to-error conversion) and returns a fully parenthesised rendering of
+// the parse tree: operators with their grouping, steps with their input
+// chain, filters, function calls, groups, constants.
+func VerifParse(expr string, namespaces map[string]string) (s string, err error) {
+	defer func() {
+		if e := recover(); e != nil {
+			switch x := e.(type) {
+			case string:
+				err = fmt.Errorf("%s", x)
+			case error:
+				err = x
+			default:
+				err = fmt.Errorf("unknown panic")
+			}
+		}
+	}()
+	root := parse(expr, namespaces)
+	var b bytes.Buffer
+	verifRender(&b, root)
+	return b.String(), nil
+}
+
+func verifRender(b *bytes.Buffer, n node) {
+	if n == nil {
+		b.WriteString("-")
+		return
+	}
+	switch x := n.(type) {
+	case *rootNode:
+		b.WriteString("root")
+	case *operatorNode:
+		b.WriteString("(")
+		verifRender(b, x.Left)
+		b.WriteString(" " + x.Op + " ")
+		verifRender(b, x.Right)
+		b.WriteString(")")
+	case *operandNode:
+		switch v := x.Val.(type) {
+		case float64:
+			b.WriteString("num(" + strconv.FormatFloat(v, 'f', -1, 64) + ")")
+		case string:
+			b.WriteString("str(" + v + ")")
+		default:
+			fmt.Fprintf(b, "const(%v)", v)
+		}
+	case *axisNode:
+		b.WriteString("axis(" + x.AxisType + ",")
+		switch {
+		case x.Prop != "":
+			b.WriteString(x.Prop + "()")
+			if x.LocalName != "" {
+				b.WriteString("[" + x.LocalName + "]")
+			}
+		case x.LocalName == "" && x.Prefix == "":
+			b.WriteString("*")
+		default:
+			b.WriteString("name:" + x.Prefix + ":" + x.LocalName)
+		}
+		b.WriteString(",")
+		verifRender(b, x.Input)
+		b.WriteString(")")
+	case *filterNode:
+		b.WriteString("filter(")
+		verifRender(b, x.Input)
+		b.WriteString(",")
+		verifRender(b, x.Condition)
+		b.WriteString(")")
+	case *functionNode:
+		b.WriteString("fn(" + x.FuncName)
+		for _, a := range x.Args {
+			b.WriteString(",")
+			verifRender(b, a)
+		}
+		b.WriteString(")")
+	case *groupNode:
+		b.WriteString("group(")
+		verifRender(b, x.Input)
+		b.WriteString(")")
+	case *variableNode:
+		b.WriteString("var(" + x.Name + ")")
+	default:
+		fmt.Fprintf(b, "?%T", n)
+	}
+}
+
+// VerifCache is the type of the value NewLoadingCache returns.
+type VerifCache = *loadingCache
+
+// VerifCacheGet calls the cache's get.
+func VerifCacheGet(c *loadingCache, key interface{}) (interface{}, error) {
+	return c.get(key)
+}
+
+// VerifCacheStats reads the number of entries, the capacity and the reset
+// counter under the cache's read lock.
+func VerifCacheStats(c *loadingCache) (entries, capacity, resets int) {
+	c.RLock()
+	defer c.RUnlock()
+	return len(c.m), c.cap, c.reset
+}
